@@ -49,8 +49,41 @@ func newLayer(name string) gopacket.DecodingLayer {
 	case "Payload":
 		var p gopacket.Payload
 		return &p
+	case "IPv6ExtensionSkipper": // the library's own multi-type decoding layer (all four IPv6 extension types)
+		return &layers.IPv6ExtensionSkipper{}
+	case "IPAny": // a user-defined multi-type decoding layer: IPv4 and IPv6 behind one object
+		return &ipAny{}
 	}
 	return nil
+}
+
+type ipAny struct {
+	v4  layers.IPv4
+	v6  layers.IPv6
+	is6 bool
+}
+
+var ipAnyClass = gopacket.NewLayerClass([]gopacket.LayerType{layers.LayerTypeIPv4, layers.LayerTypeIPv6})
+
+func (a *ipAny) DecodeFromBytes(d []byte, df gopacket.DecodeFeedback) error {
+	a.is6 = len(d) > 0 && d[0]>>4 == 6
+	if a.is6 {
+		return a.v6.DecodeFromBytes(d, df)
+	}
+	return a.v4.DecodeFromBytes(d, df)
+}
+func (a *ipAny) CanDecode() gopacket.LayerClass { return ipAnyClass }
+func (a *ipAny) NextLayerType() gopacket.LayerType {
+	if a.is6 {
+		return a.v6.NextLayerType()
+	}
+	return a.v4.NextLayerType()
+}
+func (a *ipAny) LayerPayload() []byte {
+	if a.is6 {
+		return a.v6.LayerPayload()
+	}
+	return a.v4.LayerPayload()
 }
 
 // custom container: a plain slice with linear search, using the generic LayersDecoder path
@@ -91,6 +124,10 @@ type Case struct {
 	Kind      string   `json:"kind"`
 	First     string   `json:"first"` // Ethernet | IPv4 | IPv6
 	IgnoreUns bool     `json:"ignore_unsupported"`
+	// ContainersOnly: Set is an arbitrary Put order that may repeat types and contain multi-type decoding layers
+	// (IPv6ExtensionSkipper, IPAny); only the fresh-vs-reused and the container-agreement oracles apply (a skipper
+	// hides layers from the run by design, so the run is not comparable with packet decoding)
+	ContainersOnly bool `json:"containers_only,omitempty"`
 }
 
 type parserRun struct {
@@ -266,6 +303,9 @@ func runCase1(c *Case) *vh.Failure {
 				return vh.Failf("container:"+kind+":"+k, "packet %d: %s container disagrees with %s container: %s", pi, kind, c.Kind, d)
 			}
 		}
+		if c.ContainersOnly {
+			continue
+		}
 		// (2) parser vs packet decoding, leading run only
 		if f := versusPacket(c, pi, data, fresh); f != nil {
 			return f
@@ -426,6 +466,44 @@ func genCase(t *rapid.T) (*Case, bool) {
 		prev = desc
 	}
 	return c, varied && n >= 2
+}
+
+// TestContainers: the lookup containers agree for every Put order, including re-registration of a type and decoding
+// layers that serve several types at once.
+func TestContainers(t *testing.T) {
+	names := append(append([]string(nil), layerNames...), "IPv6ExtensionSkipper", "IPAny", "IPAny")
+	rapid.Check(t, func(rt *rapid.T) {
+		c, _ := genCase(rt)
+		c.ContainersOnly = true
+		c.Set = nil
+		multi, repeat := false, false
+		have := map[gopacket.LayerType]bool{}
+		for n := rapid.IntRange(2, 12).Draw(rt, "nput"); n > 0; n-- {
+			name := rapid.SampledFrom(names).Draw(rt, "put")
+			c.Set = append(c.Set, name)
+			ts := newLayer(name).CanDecode().LayerTypes()
+			if len(ts) > 1 {
+				multi = true
+			}
+			for _, lt := range ts {
+				if have[lt] {
+					repeat = true
+				}
+				have[lt] = true
+			}
+		}
+		js, _ := json.Marshal(c)
+		cls := []string{"containers", "kind:" + c.Kind}
+		if multi {
+			cls = append(cls, "multi-type-decoder")
+		}
+		if repeat {
+			cls = append(cls, "type-registered-twice")
+		}
+		S.Note(vh.Hash64(js), multi && repeat, cls...)
+		S.Current("TestContainers", c)
+		S.Check(rt, "TestHistory", c, runCase(c))
+	})
 }
 
 func TestHistory(t *testing.T) {
